@@ -329,7 +329,11 @@ def oracle(sc, r, want=("C07", "C08", "C09")):
                 res = o["res"] if isinstance(o["res"], dict) else {}
                 if not str(res.get("err", "")).startswith("err,shutdown"):
                     bad.append(("C09", "an operation started after shutdown returned did not fail with the transport-shut-down error", json.dumps(o["res"])))
-                if any(e[1] == "S" and e[3] == "ACCEPT" for e in log[o["start"]:o["end"]]):
+                # a connection that the maintenance worker opens in a pass that was already under way is not opened
+                # "for the send"; the model accepts EMaintConnectOk after shutdown and then only EMaintDropNew
+                # (EMaintPush is impossible: C09_no_checkout_after), and the census checks that it is closed
+                by_worker = {cid(e[3]) for e in log if e[1] == "P" and e[2] in ("maint_connect_ok", "maint_drop_new") and e[3]}
+                if any(e[1] == "S" and e[3] == "ACCEPT" and e[2] not in by_worker for e in log[o["start"]:o["end"]]):
                     # only a connect begun by an earlier sender could be accepted now; with all senders joined none is
                     if o["who"] == "main":
                         bad.append(("C09", "a connection was opened for a send that started after shutdown", ""))
